@@ -35,7 +35,7 @@ PROPS['C32'] = dict(
     target='Props/C32',
     theorems=['C32_one_result_per_element', 'C32_atomic_all_or_none', 'C32_sequential_continue', 'C32_sequential_stops_at_first_failure', 'C32_all_succeed',
               'C32_success_is_standalone', 'C32_response_attribution_sequential', 'C32_parallel_is_a_permutation', 'C32_attribution_refuted_parallel', 'C32_core_atomic_all_or_none'],
-    ties=[dict(name='TIE-D bulk', vh='bulk', model='bulk', n=dict(quick=150, thorough=8000), kinds=['C32'])],
+    ties=[dict(name='TIE-D bulk', vh='bulk', model='bulk', n=dict(quick=400, thorough=8000), kinds=['C32'])],
     rule='random bulks of 1..7 elements on a ledger prepared with 0..4 committed writes: CREATE_TRANSACTION (funded, insufficient funds, reference reuse r1/r2, back-dated), REVERT_TRANSACTION '
          '(existing, unknown, already reverted), ADD_METADATA / DELETE_METADATA on transactions and accounts (unknown transaction), idempotency keys reused inside the bulk; failing elements at random '
          'positions; options atomic / continueOnFailure / parallel (all legal combinations); parallel bulks run with every task started before the first completion and completions in a seeded '
